@@ -1035,6 +1035,12 @@ func (c *CEnv) callExpr(e *CE, hint *Value) Value {
 		}
 		comp := c.x.comp(c.heap(), a.Loc.Prefix, c.x.compSortFor(lf[0].Sort, len(a.Loc.Elems)+1))
 		return Value{K: KScalar, X: nestedSelect(comp, a.Loc.indices())}
+	case "wheld", "rheld", "unheld":
+		// ghost lock state of a mutex field: write-held / read-held / not held by this call chain
+		l := c.evalLoc(e.Args[0], c.heap())
+		ls := c.x.lockState(c.heap(), l)
+		want := map[string]int64{"wheld": 2, "rheld": 1, "unheld": 0}[e.Name]
+		return Value{K: KScalar, X: Eq(ls, IntLit(want))}
 	case "payload":
 		// the pointer wrapped by an interface value
 		a := c.eval(e.Args[0])
